@@ -4,6 +4,13 @@
 //! stdout. A stale CAS never overwrites — it lands a conflict-copy instead
 //! (docs/specifications/distributed-sync.md).
 
+#[cfg(paiml_copia_verif)]
+#[allow(unused_imports)]
+use copia_simworld::shim::{fs2, std, tokio};
+#[cfg(paiml_copia_verif)]
+#[allow(unused_imports)]
+use copia_simworld::{eprintln, println};
+
 use super::meta::discover_local_fingerprints;
 use super::wire::{cas_decide, read_frame, write_frame, Cas, Hash, Request, Response, VERSION};
 use fs2::FileExt;
